@@ -72,7 +72,7 @@ def gen_block(g, idx, atypes):
             "bare_atoms": g.random() < 0.15}      # [ atoms ] lines without charge and mass columns
 
 
-def gen_ff(g, nblocks=None, uniform_nrexcl=True, itp_p=0.2, multires_p=0.15):
+def gen_ff(g, nblocks=None, uniform_nrexcl=True, itp_p=0.2, multires_p=0.15, removal_p=0.0):
     atypes = [f"P{i}" for i in range(g.randint(1, 3))]
     nblocks = nblocks or g.randint(1, 3)
     blocks = [gen_block(g, i, atypes) for i in range(nblocks)]
@@ -170,6 +170,32 @@ def gen_ff(g, nblocks=None, uniform_nrexcl=True, itp_p=0.2, multires_p=0.15):
                 # neighbours in the residue graph)
                 sec3["pairs"] = [{"atoms": [a, ">>" + a], "params": ["1", "0.29", "1.5"], "meta": {}}]
             links.append({"resnames": names, "sections": sec3})
+    if removal_p and g.random() < removal_p:
+        # end capping by removal: the last atom of a residue of type X that is not followed by another X is deleted
+        # (syntax of the shipped test data: [ atoms ] with replace atomname null, [ non-edges ] to the next residue)
+        cands = [b for b in blocks if 2 <= len(b["atoms"]) <= 3 and not b.get("itp")]
+        if cands:
+            X = g.choice(cands)
+            last, first = X["atoms"][-1]["name"], X["atoms"][0]["name"]
+            # a cap atom of its own (bonded to the first atom, used by no other link) is what gets deleted
+            cap = X["name"][-1] + "H"
+            X["atoms"].insert(1, {"name": cap, "atype": X["atoms"][0]["atype"], "charge": 0.0, "mass": 36.0, "cgnr": 1})
+            for its in X["inter"].values():
+                for it in its:
+                    it["atoms"] = [a + 1 if a >= 1 else a for a in it["atoms"]]
+            for sec, its in (X.get("dangling") or {}).items():
+                for it in its:
+                    it["atoms"] = [a + 1 if a >= 1 else a for a in it["atoms"]]
+            X["inter"]["bonds"].append({"atoms": [0, 1], "params": ["1", "0.25", "6000"], "meta": {}})
+            links.append({"resnames": [X["name"]], "removal_link": True, "sections": {
+                "atoms": [{"atoms": [cap + ' {"replace": {"atomname": null}}'], "params": [], "meta": {}}],
+                "non-edges": [{"atoms": [last, "+" + first], "params": [], "meta": {}}]}})
+            if g.random() < 0.6:
+                # a link inside the residue that refers to the cap atom AND defines a term that does not: where the
+                # cap is deleted only the terms on it go
+                links.append({"resnames": [X["name"]], "sections": {
+                    "angles": [{"atoms": [cap, first, last], "params": ["1", "105", "25"], "meta": {}}],
+                    "bonds": [{"atoms": [first, last], "params": ["6", "0.52", "150"], "meta": {}}]}})
     multires = None
     if g.random() < multires_p:
         # an existing multi-residue molecule used as building block (polyply .itp file; residue graph nodes of the
